@@ -5,8 +5,9 @@ L3 = ('needs whole-library execution (initialize, real forests, operations, comp
 CLAIMS['C01'] = ('Bounded model checking of the mechanisms that make equality canonical, on the real code with symbolic node contents: (a) the real hash_stream is a fold '
                  'over the pushed words; (b) unpacked-full, unpacked-sparse and packed forms of a node (level size 3, every shape, every storage option, MT and EV+) feed '
                  'the same word sequence to the hash; (c) the duplicate test against packed storage is exact; (d) the per-variable unique table under a bounded symbolic '
-                 'history of find/add/remove with symbolic hashes and a symbolic equivalence relation, including expand/shrink rehashing. Not covered: normalisation and '
-                 'createReducedNode end to end, chains of operations (whole-library level).', 'DESIGN.md 11.2 C01')
+                 'history of find/add/remove with symbolic hashes and a symbolic equivalence relation, and expand/shrink rehashing scripts; (e) EV+ edge-value normalisation '
+                 '(normalize_evplus of the real forest.cc) to a canonical representative. Not covered: createReducedNode end to end on a real forest, chains of '
+                 'operations (whole-library level).', 'DESIGN.md 11.2 C01')
 CLAIMS['C02'] = ('Bounded model checking of the pack/unpack codec of node storage (real storage/simple.cc, unpacked_node.cc, memory manager): for every shape of a node of a '
                  'level of size 3 and every storage option, the FULL_ONLY, SPARSE_ONLY and FULL_OR_SPARSE views, getDownPtr and isSingletonNode return the stored child '
                  'map (children and EV+ edge values symbolic), and all views hash identically. The forest-wide audit of the reduction rule after histories is not covered '
